@@ -48,11 +48,14 @@ class NfdRegister(PrefixRegisterer):
                     break
                 await aio.sleep(0.001)
             try:
-                _, reply, _ = await self.app.express(
+                pending = self.app.express(
                     name=nfd_mgmt.make_command_v2('rib', 'register', self.app.face, name=name),
                     app_param=b'', signer=sec.DigestSha256Signer(for_interest=True),
                     validator=pass_all,
                     lifetime=1000)
+                # The signer took its own clock reading, which may be later than the one the gate saw
+                self._last_command_timestamp = max(self._last_command_timestamp, utils.timestamp())
+                _, reply, _ = await pending
                 ret = nfd_mgmt.parse_response(reply)
                 if ret['status_code'] != 200:
                     logging.getLogger(__name__).error('Registration for %s failed: %s %s',
@@ -82,10 +85,12 @@ class NfdRegister(PrefixRegisterer):
                     break
                 await aio.sleep(0.001)
             try:
-                _, reply, _ = await self.app.express(
+                pending = self.app.express(
                     nfd_mgmt.make_command_v2('rib', 'unregister', self.app.face, name=name),
                     app_param=b'', signer=sec.DigestSha256Signer(for_interest=True),
                     validator=pass_all, lifetime=1000)
+                self._last_command_timestamp = max(self._last_command_timestamp, utils.timestamp())
+                _, reply, _ = await pending
                 ret = nfd_mgmt.parse_response(reply)
                 return ret['status_code'] == 200
             except (types.InterestNack, types.InterestTimeout, types.InterestCanceled, types.ValidationFailure):
